@@ -394,6 +394,9 @@ class DMRGEngine(IterativeSweeps):
         """
         max_E_err = self.options.get('max_E_err', 1.0e-8, 'real')
         max_S_err = self.options.get('max_S_err', 1.0e-5, 'real')
+        if len(self.sweep_stats['E']) == 0:
+            # no sweep since `reset_stats` yet, e.g. right after resuming from a checkpoint
+            return False
         E = self.sweep_stats['E'][-1]
         Delta_E = self.sweep_stats['Delta_E'][-1]
         Delta_S = self.sweep_stats['Delta_S'][-1]
